@@ -10,6 +10,13 @@ theorem IpS.map_reE {v6 : Bool} (ap : Bool) {r : List Entry} (h : IpS v6 r) : Ip
   obtain ⟨x, hx, rfl⟩ := List.mem_map.mp he
   exact reE_ok v6 ap x (h x hx)
 
+theorem FitS.map_reE {v6 ap : Bool} {max tail cur : Nat} {r : List Entry} (hi : IpS v6 r) (h : FitS max tail ap cur r) :
+    FitS max tail ap cur (r.map (reE v6 ap)) := by
+  intro e he
+  obtain ⟨x, hx, rfl⟩ := List.mem_map.mp he
+  rw [encE_reE v6 ap x (hi x hx)]
+  exact h x hx
+
 theorem clean_upd_ip (v6 ap : Bool) (sl : List Entry) (h : ∀ e ∈ sl, IpEntryOk v6 e) :
     ((sl.map (decE v6 ap)).any DEntry.isBad) = false := by
   rw [List.any_eq_false]
@@ -26,10 +33,9 @@ def reachLegacyFp (p : Profile) (loc rem : List Cap) (attrs : List Attr) (es0 : 
     (hattrs' : encodeAttrs p (negotiate loc rem).twoByte fin 0 = .ok (ab, ab.length))
     (h1 : hasCode 1 fin = true) (h2 : hasCode 2 fin = true)
     (hleg : (negotiate loc rem).extNh = false) (ha : a.length = 4)
-    (hc : CodecPair (negotiate loc rem) (negotiate rem loc) Fam.ipv4)
-    (hfit : (negotiate loc rem).maxLen > 23 + (ab.length + 7) + (5 + ap4 ((negotiate loc rem).addpathTx Fam.ipv4))) :
+    (hc : CodecPair (negotiate loc rem) (negotiate rem loc) Fam.ipv4) :
     UpdFamFp p loc rem (.reach Fam.ipv4 (some (.v4 a)) attrs es0) where
-  toUpdFam := reachLegacyFam p (negotiate loc rem) (negotiate rem loc) attrs es0 a ab fin P hattrs hleg ha hc hfit
+  toUpdFam := reachLegacyFam p (negotiate loc rem) (negotiate rem loc) attrs es0 a ab fin P hattrs hleg ha hc
   g := reE false ((negotiate loc rem).addpathTx Fam.ipv4)
   hle := fun r => fitN_le _ _ _ _ r
   remsg := fun es' => .reach Fam.ipv4 (some (.v4 a)) fin es'
@@ -39,33 +45,33 @@ def reachLegacyFp (p : Profile) (loc rem : List Cap) (attrs : List Attr) (es0 : 
     simp only [reachLegacyFam, toMsgs, Option.map, Option.getD, Option.isSome, Bool.true_or, h1, h2,
       Bool.not_true, Bool.false_or, Option.isNone, Bool.or_self, Bool.and_false, Bool.false_eq_true, if_false,
       List.append_nil]
-    rw [toEntries_decE false _ _ _ (hS.take _)]
+    rw [toEntries_decE false _ _ _ (hS.1.take _)]
   hclean := by
     intro r _ hS
     simp only [reachLegacyFam, DRes.clean, List.isEmpty_nil, Bool.true_and, Option.map, Option.getD, List.append_nil]
-    rw [clean_upd_ip false _ _ (hS.take _)]; rfl
+    rw [clean_upd_ip false _ _ (hS.1.take _)]; rfl
   hnE := by
     intro r _ _
     simp only [reachLegacyFam, Parsed.nEntries, Option.map, Option.getD, List.length_map, List.length_take]
-    have := fitN_le (negotiate loc rem).maxLen (5 + ap4 ((negotiate loc rem).addpathTx Fam.ipv4))
+    have := fitN_le (negotiate loc rem).maxLen 0
       ((negotiate loc rem).addpathTx Fam.ipv4) (23 + (ab.length + 7)) r
     omega
-  refam := fun es' => reachLegacyFam p (negotiate loc rem) (negotiate rem loc) fin es' a ab fin P hattrs' hleg ha hc hfit
+  refam := fun es' => reachLegacyFam p (negotiate loc rem) (negotiate rem loc) fin es' a ab fin P hattrs' hleg ha hc
   hsameB := fun _ => rfl
   hsameN := fun _ => rfl
   hsameQ := fun _ => rfl
   hsameS := fun _ => rfl
-  hgS := fun _ h => h.map_reE _
-  hgN := fun r _ hS => fitN_take_map _ _ _ false _ r hS
+  hgS := fun _ h => ⟨h.1.map_reE _, FitS.map_reE h.1 h.2⟩
+  hgN := fun r _ hS => fitN_take_map _ _ _ false _ r hS.1
   hgB := by
     intro r _ hS
     simp only [reachLegacyFam]
-    rw [fitN_take_map _ _ _ false _ r hS, region_take_map _ false _ r hS]
+    rw [fitN_take_map _ _ _ false _ r hS.1, region_take_map _ false _ r hS.1]
   hgQ := by
     intro r _ hS
     simp only [reachLegacyFam]
-    rw [fitN_take_map _ _ _ false _ r hS, dents_take_map _ false _ r hS]
-  htakeS := fun _ n h => h.take n
+    rw [fitN_take_map _ _ _ false _ r hS.1, dents_take_map _ false _ r hS.1]
+  htakeS := fun _ n h => ⟨h.1.take n, h.2.take n⟩
 
 /-! ### MP reach -/
 
@@ -76,10 +82,9 @@ def reachMpFp (p : Profile) (loc rem : List Cap) (f : Fam) (v6 : Bool) (attrs : 
     (h1 : hasCode 1 fin = true) (h2 : hasCode 2 fin = true)
     (hmp : ¬ (f = Fam.ipv4 ∧ (!(negotiate loc rem).extNh) = true)) (hf : isIpFam f = some v6)
     (hfa : f.afi < 65536) (hfs : f.safi < 256) (hnh : NhMp nh)
-    (hc : CodecPair (negotiate loc rem) (negotiate rem loc) f)
-    (hfit : (negotiate loc rem).maxLen > 23 + ab.length + 4 + (5 + nh.bytes.length) + (17 + ap4 ((negotiate loc rem).addpathTx f))) :
+    (hc : CodecPair (negotiate loc rem) (negotiate rem loc) f) :
     UpdFamFp p loc rem (.reach f (some nh) attrs es0) where
-  toUpdFam := reachMpFam p (negotiate loc rem) (negotiate rem loc) f v6 attrs es0 nh ab fin P hattrs hmp hf hfa hfs hnh hc hfit
+  toUpdFam := reachMpFam p (negotiate loc rem) (negotiate rem loc) f v6 attrs es0 nh ab fin P hattrs hmp hf hfa hfs hnh hc
   g := reE v6 ((negotiate loc rem).addpathTx f)
   hle := fun r => fitN_le _ _ _ _ r
   remsg := fun es' => .reach f (some nh) fin es'
@@ -90,43 +95,42 @@ def reachMpFp (p : Profile) (loc rem : List Cap) (f : Fam) (v6 : Bool) (attrs : 
     simp only [reachMpFam, toMsgs, Option.map, Option.getD, Option.isSome, Bool.or_true, h1, h2,
       Bool.not_true, Bool.false_or, Option.isNone, Bool.or_self, Bool.and_false, Bool.false_eq_true, if_false,
       List.append_nil, List.nil_append, Nat.add_zero, Nat.zero_add, List.drop_zero, Bool.false_and, Bool.or_false]
-    rw [toEntries_decE v6 _ _ _ (hS.take _)]
+    rw [toEntries_decE v6 _ _ _ (hS.1.take _)]
   hclean := by
     intro r _ hS
     simp only [reachMpFam, DRes.clean, List.isEmpty_nil, Bool.true_and, Option.map, Option.getD, List.append_nil,
       List.nil_append]
-    rw [clean_upd_ip v6 _ _ (hS.take _)]; rfl
+    rw [clean_upd_ip v6 _ _ (hS.1.take _)]; rfl
   hnE := by
     intro r _ _
     simp only [reachMpFam, Parsed.nEntries, Option.map, Option.getD, List.length_map, List.length_take]
-    have := fitN_le (negotiate loc rem).maxLen (17 + ap4 ((negotiate loc rem).addpathTx f))
+    have := fitN_le (negotiate loc rem).maxLen 0
       ((negotiate loc rem).addpathTx f) (23 + ab.length + 4 + (5 + nh.bytes.length)) r
     omega
-  refam := fun es' => reachMpFam p (negotiate loc rem) (negotiate rem loc) f v6 fin es' nh ab fin P hattrs' hmp hf hfa hfs hnh hc hfit
+  refam := fun es' => reachMpFam p (negotiate loc rem) (negotiate rem loc) f v6 fin es' nh ab fin P hattrs' hmp hf hfa hfs hnh hc
   hsameB := fun _ => rfl
   hsameN := fun _ => rfl
   hsameQ := fun _ => rfl
   hsameS := fun _ => rfl
-  hgS := fun _ h => h.map_reE _
-  hgN := fun r _ hS => fitN_take_map _ _ _ v6 _ r hS
+  hgS := fun _ h => ⟨h.1.map_reE _, FitS.map_reE h.1 h.2⟩
+  hgN := fun r _ hS => fitN_take_map _ _ _ v6 _ r hS.1
   hgB := by
     intro r _ hS
     simp only [reachMpFam]
-    rw [fitN_take_map _ _ _ v6 _ r hS, region_take_map _ v6 _ r hS]
+    rw [fitN_take_map _ _ _ v6 _ r hS.1, region_take_map _ v6 _ r hS.1]
   hgQ := by
     intro r _ hS
     simp only [reachMpFam]
-    rw [fitN_take_map _ _ _ v6 _ r hS, dents_take_map _ v6 _ r hS]
-  htakeS := fun _ n h => h.take n
+    rw [fitN_take_map _ _ _ v6 _ r hS.1, dents_take_map _ v6 _ r hS.1]
+  htakeS := fun _ n h => ⟨h.1.take n, h.2.take n⟩
 
 /-! ### withdrawals -/
 
 def unreachLegacyFp (p : Profile) (loc rem : List Cap) (es0 : List Entry)
     (hleg : (negotiate loc rem).extNh = false)
-    (hc : CodecPair (negotiate loc rem) (negotiate rem loc) Fam.ipv4)
-    (hfit : (negotiate loc rem).maxLen > 21 + (5 + 2 + ap4 ((negotiate loc rem).addpathTx Fam.ipv4))) :
+    (hc : CodecPair (negotiate loc rem) (negotiate rem loc) Fam.ipv4) :
     UpdFamFp p loc rem (.unreach Fam.ipv4 es0) where
-  toUpdFam := unreachLegacyFam p (negotiate loc rem) (negotiate rem loc) es0 hleg hc hfit
+  toUpdFam := unreachLegacyFam p (negotiate loc rem) (negotiate rem loc) es0 hleg hc
   g := reE false ((negotiate loc rem).addpathTx Fam.ipv4)
   hle := fun r => fitN_le _ _ _ _ r
   remsg := fun es' => .unreach Fam.ipv4 es'
@@ -136,42 +140,41 @@ def unreachLegacyFp (p : Profile) (loc rem : List Cap) (es0 : List Entry)
     simp only [unreachLegacyFam, toMsgs, Option.map, Option.getD, Option.isSome, Bool.or_self,
       Bool.false_and, Bool.false_eq_true, if_false, List.append_nil, List.nil_append, Nat.add_zero, Nat.zero_add,
       List.drop_zero]
-    rw [toEntries_decE false _ _ _ (hS.take _)]
+    rw [toEntries_decE false _ _ _ (hS.1.take _)]
   hclean := by
     intro r _ hS
     simp only [unreachLegacyFam, DRes.clean, List.isEmpty_nil, Bool.true_and, Option.map, Option.getD, List.append_nil,
       List.nil_append]
-    rw [clean_upd_ip false _ _ (hS.take _)]; rfl
+    rw [clean_upd_ip false _ _ (hS.1.take _)]; rfl
   hnE := by
     intro r _ _
     simp only [unreachLegacyFam, Parsed.nEntries, Option.map, Option.getD, List.length_map, List.length_take]
-    have := fitN_le (negotiate loc rem).maxLen (5 + 2 + ap4 ((negotiate loc rem).addpathTx Fam.ipv4))
+    have := fitN_le (negotiate loc rem).maxLen 2
       ((negotiate loc rem).addpathTx Fam.ipv4) 21 r
     omega
-  refam := fun es' => unreachLegacyFam p (negotiate loc rem) (negotiate rem loc) es' hleg hc hfit
+  refam := fun es' => unreachLegacyFam p (negotiate loc rem) (negotiate rem loc) es' hleg hc
   hsameB := fun _ => rfl
   hsameN := fun _ => rfl
   hsameQ := fun _ => rfl
   hsameS := fun _ => rfl
-  hgS := fun _ h => h.map_reE _
-  hgN := fun r _ hS => fitN_take_map _ _ _ false _ r hS
+  hgS := fun _ h => ⟨h.1.map_reE _, FitS.map_reE h.1 h.2⟩
+  hgN := fun r _ hS => fitN_take_map _ _ _ false _ r hS.1
   hgB := by
     intro r _ hS
     simp only [unreachLegacyFam]
-    rw [fitN_take_map _ _ _ false _ r hS, region_take_map _ false _ r hS]
+    rw [fitN_take_map _ _ _ false _ r hS.1, region_take_map _ false _ r hS.1]
   hgQ := by
     intro r _ hS
     simp only [unreachLegacyFam]
-    rw [fitN_take_map _ _ _ false _ r hS, dents_take_map _ false _ r hS]
-  htakeS := fun _ n h => h.take n
+    rw [fitN_take_map _ _ _ false _ r hS.1, dents_take_map _ false _ r hS.1]
+  htakeS := fun _ n h => ⟨h.1.take n, h.2.take n⟩
 
 def unreachMpFp (p : Profile) (loc rem : List Cap) (f : Fam) (v6 : Bool) (es0 : List Entry)
     (hmp : ¬ (f = Fam.ipv4 ∧ (!(negotiate loc rem).extNh) = true)) (hf : isIpFam f = some v6)
     (hfa : f.afi < 65536) (hfs : f.safi < 256)
-    (hc : CodecPair (negotiate loc rem) (negotiate rem loc) f)
-    (hfit : (negotiate loc rem).maxLen > 23 + 4 + 3 + (17 + ap4 ((negotiate loc rem).addpathTx f))) :
+    (hc : CodecPair (negotiate loc rem) (negotiate rem loc) f) :
     UpdFamFp p loc rem (.unreach f es0) where
-  toUpdFam := unreachMpFam p (negotiate loc rem) (negotiate rem loc) f v6 es0 hmp hf hfa hfs hc hfit
+  toUpdFam := unreachMpFam p (negotiate loc rem) (negotiate rem loc) f v6 es0 hmp hf hfa hfs hc
   g := reE v6 ((negotiate loc rem).addpathTx f)
   hle := fun r => fitN_le _ _ _ _ r
   remsg := fun es' => .unreach f es'
@@ -181,33 +184,33 @@ def unreachMpFp (p : Profile) (loc rem : List Cap) (f : Fam) (v6 : Bool) (es0 : 
     simp only [unreachMpFam, toMsgs, Option.map, Option.getD, Option.isSome, Bool.or_self,
       Bool.false_and, Bool.false_eq_true, if_false, List.append_nil, List.nil_append, Nat.add_zero, Nat.zero_add,
       List.drop_zero]
-    rw [toEntries_decE v6 _ _ _ (hS.take _)]
+    rw [toEntries_decE v6 _ _ _ (hS.1.take _)]
   hclean := by
     intro r _ hS
     simp only [unreachMpFam, DRes.clean, List.isEmpty_nil, Bool.true_and, Option.map, Option.getD, List.append_nil,
       List.nil_append]
-    rw [clean_upd_ip v6 _ _ (hS.take _)]; rfl
+    rw [clean_upd_ip v6 _ _ (hS.1.take _)]; rfl
   hnE := by
     intro r _ _
     simp only [unreachMpFam, Parsed.nEntries, Option.map, Option.getD, List.length_map, List.length_take]
-    have := fitN_le (negotiate loc rem).maxLen (17 + ap4 ((negotiate loc rem).addpathTx f))
+    have := fitN_le (negotiate loc rem).maxLen 0
       ((negotiate loc rem).addpathTx f) (23 + 4 + 3) r
     omega
-  refam := fun es' => unreachMpFam p (negotiate loc rem) (negotiate rem loc) f v6 es' hmp hf hfa hfs hc hfit
+  refam := fun es' => unreachMpFam p (negotiate loc rem) (negotiate rem loc) f v6 es' hmp hf hfa hfs hc
   hsameB := fun _ => rfl
   hsameN := fun _ => rfl
   hsameQ := fun _ => rfl
   hsameS := fun _ => rfl
-  hgS := fun _ h => h.map_reE _
-  hgN := fun r _ hS => fitN_take_map _ _ _ v6 _ r hS
+  hgS := fun _ h => ⟨h.1.map_reE _, FitS.map_reE h.1 h.2⟩
+  hgN := fun r _ hS => fitN_take_map _ _ _ v6 _ r hS.1
   hgB := by
     intro r _ hS
     simp only [unreachMpFam]
-    rw [fitN_take_map _ _ _ v6 _ r hS, region_take_map _ v6 _ r hS]
+    rw [fitN_take_map _ _ _ v6 _ r hS.1, region_take_map _ v6 _ r hS.1]
   hgQ := by
     intro r _ hS
     simp only [unreachMpFam]
-    rw [fitN_take_map _ _ _ v6 _ r hS, dents_take_map _ v6 _ r hS]
-  htakeS := fun _ n h => h.take n
+    rw [fitN_take_map _ _ _ v6 _ r hS.1, dents_take_map _ v6 _ r hS.1]
+  htakeS := fun _ n h => ⟨h.1.take n, h.2.take n⟩
 
 end Rbgp.Enc
